@@ -81,6 +81,19 @@ CLAIMED["C19"] = (
     "DESIGN.md section 6, C19",
 )
 
+CLAIMED["C03"] = (
+    "Coq theorems for every numeric tree and each of the nine types: validate T t = Ok g iff t is the dump of some g0 of "
+    "type T satisfying the rules (accept) and g is its normal form; every failure is a validation error; accepted "
+    "coordinates are all >= 0 / within [0, MAX_FREQUENCY] at any nesting depth; the result is valid, in normal form and of "
+    "the requested class; normalisation only reverses a line or swaps box corners; re-validating the dump is the identity; "
+    "geometry_validate returns the class named by the tag and a ValueError otherwise. Correspondence: mutated trees through "
+    "constructor, dict, attributes and JSON modes plus re-validation of every accepted dump, all compared with the model.",
+    "Trusted: Coq kernel/vm_compute; hand-written model of the nine validators; pydantic's lax coercion and JSON parsing not "
+    "modelled (the four entry points are one function in the model; their agreement is checked by correspondence).",
+    "Rocq/Coq proof + model/implementation correspondence by vm_compute",
+    "DESIGN.md section 6, C03",
+)
+
 NOT_YET = {}
 
 
